@@ -3,7 +3,10 @@
 Space (E2): every program of <= n nodes over {(rc_log i), do, defn+calls,
 eval-when-compile, eval-and-compile, do-mac returning a quoted logging form,
 do-mac returning a constant, (rc_val j FORM) value probe} that contains a
-staging form — staging forms at top level, inside `do`, inside function bodies
+staging form, plus (mc/ref/rc_staging.py extra_programs) do-mac leaving each
+false constant, a do-mac / eval-when-compile that is the whole body of an
+eval-when-compile, and an eval-when-compile inside a function that assigns a
+let-bound name, each in every context of depth <= 2 — staging forms at top level, inside `do`, inside function bodies
 (called 0 or 2 times), as the probed argument — written to a fresh .hy file
 and put through EVERY history of <= k steps over
     L  drop the module from sys.modules and import it
@@ -30,7 +33,7 @@ RULE = ("programs enumerated by size then constructor order (all distinct as tre
         "present?) configurations reached; non-trivial program = it has at least one compile-time event AND at least one run-time event "
         "(so the two stages can be confused); outcome classes = (compiled?, #C events, #R events)")
 ASSUMPTIONS = [
-    "constructors and size bound as listed; a compile-time form directly inside another compile-time form is outside the space (undocumented)",
+    "constructors and size bound as listed; a compile-time form directly inside an eval-and-compile or do-mac body, or next to other forms in an eval-when-compile body, is outside the space (how often / in which order it runs is undocumented); a do-mac or eval-when-compile that is the whole body of an eval-when-compile is inside it (that body runs once, at compile time)",
     "compile-time forms only in statement position or as the single argument of the value probe, so the documentation's silence on argument "
     "evaluation order does not matter; compile-time events are expected in textual order (api.rst: evaluated 'as soon as the form is compiled')",
     "stage tagging relies on the import protocol (get_code, then exec of the code object), not on Hy internals",
